@@ -133,8 +133,8 @@ func init() {
 			"non-trivial = some feature has a referrer that is only reachable transitively",
 		Assumptions: []string{"for in-memory worlds the query is defined as the transitive reverse closure (what FindReferences documents by implementation); typed variants filter the closure"},
 		Quick:       600, Thorough: 60000,
-		Batch:       20,
-		Required:    []string{"kind_basic", "kind_basic-mutable", "kind_mutable-overlay", "cyclic_graphs", "self_reference", "rewire_ops", "transitive_referrers", "queries", "replaced_base_referrer"},
+		Batch:    20,
+		Required: []string{"kind_basic", "kind_basic-mutable", "kind_mutable-overlay", "cyclic_graphs", "self_reference", "rewire_ops", "transitive_referrers", "queries", "replaced_base_referrer"},
 		Run: func(c *core.Ctx) {
 			r := c.R
 			kind := []string{"basic", "basic-mutable", "mutable-overlay"}[c.Index%3]
